@@ -25,6 +25,21 @@ func refOverlap(a, b rtree.Box) bool {
 	return a.MinX <= b.MaxX && b.MinX <= a.MaxX && a.MinY <= b.MaxY && b.MinY <= a.MaxY
 }
 
+// refDist is the box-to-box Euclidean distance computed without squaring
+// (math.Hypot neither overflows nor underflows for representable distances).
+func refDist(a, b rtree.Box) float64 {
+	g := func(a0, a1, b0, b1 float64) float64 {
+		if b0 > a1 {
+			return b0 - a1
+		}
+		if a0 > b1 {
+			return a0 - b1
+		}
+		return 0
+	}
+	return math.Hypot(g(a.MinX, a.MaxX, b.MinX, b.MaxX), g(a.MinY, a.MaxY, b.MinY, b.MaxY))
+}
+
 func refDist2(a, b rtree.Box) float64 {
 	g := func(a0, a1, b0, b1 float64) float64 {
 		if b0 > a1 {
@@ -170,9 +185,9 @@ func c11Query(r *engine.Run, t *c11Tree, q rtree.Box, allK bool) {
 				if v < 0 || v >= len(t.boxes) {
 					break
 				}
-				d := refDist2(t.boxes[v], q)
-				if d < prev {
-					r.Violation("C11/priority.order", "search", c, fmt.Sprintf("record %d at d²=%v after d²=%v", v, d, prev))
+				d := refDist(t.boxes[v], q)
+				if d < prev*(1-1e-15) {
+					r.Violation("C11/priority.order", "search", c, fmt.Sprintf("record %d at distance %v after distance %v", v, d, prev))
 					break
 				}
 				prev = d
@@ -184,9 +199,9 @@ func c11Query(r *engine.Run, t *c11Tree, q rtree.Box, allK bool) {
 			} else if found {
 				best := math.Inf(1)
 				for _, b := range t.boxes {
-					best = math.Min(best, refDist2(b, q))
+					best = math.Min(best, refDist(b, q))
 				}
-				if id < 0 || id >= len(t.boxes) || refDist2(t.boxes[id], q) != best {
+				if id < 0 || id >= len(t.boxes) || refDist(t.boxes[id], q) > best*(1+1e-15) {
 					r.Violation("C11/nearest.notMinimal", "search", c, fmt.Sprint(id))
 				}
 			}
@@ -383,6 +398,23 @@ var c11Families = []c11Family{
 		}
 		return o
 	}},
+	{"magnitudes-1e200", func(n int) []rtree.Box {
+		var o []rtree.Box
+		for i := 0; i < n; i++ {
+			x := 1e200 * float64((i*7)%(n+1)+1)
+			y := 1e200 * float64(i%3)
+			o = append(o, rtree.Box{MinX: x, MinY: y, MaxX: x, MaxY: y})
+		}
+		return o
+	}},
+	{"magnitudes-1e-200", func(n int) []rtree.Box {
+		var o []rtree.Box
+		for i := 0; i < n; i++ {
+			x := 1e-200 * float64((i*5)%(n+1)+1)
+			o = append(o, rtree.Box{MinX: x, MinY: x, MaxX: x * 1.5, MaxY: x})
+		}
+		return o
+	}},
 	{"extreme-1e300", func(n int) []rtree.Box {
 		var o []rtree.Box
 		for i := 0; i < n; i++ {
@@ -401,7 +433,7 @@ var c11Families = []c11Family{
 // plus an enclosing box, a far-disjoint one, and for a stride of items their
 // own box and boxes touching them at an edge and at a corner.
 func c11Queries(boxes []rtree.Box, perItem int) []rtree.Box {
-	qs := []rtree.Box{{MinX: -1e9, MinY: -1e9, MaxX: 1e9, MaxY: 1e9}, {MinX: 2e9, MinY: 2e9, MaxX: 3e9, MaxY: 3e9}, {MinX: -math.MaxFloat64, MinY: -math.MaxFloat64, MaxX: math.MaxFloat64, MaxY: math.MaxFloat64}}
+	qs := []rtree.Box{{MinX: -1e9, MinY: -1e9, MaxX: 1e9, MaxY: 1e9}, {MinX: 2e9, MinY: 2e9, MaxX: 3e9, MaxY: 3e9}, {}, {MinX: -math.MaxFloat64, MinY: -math.MaxFloat64, MaxX: math.MaxFloat64, MaxY: math.MaxFloat64}}
 	if len(boxes) == 0 {
 		return append(qs, c11LatticeBoxes(2)...)
 	}
@@ -438,7 +470,7 @@ func c11Queries(boxes []rtree.Box, perItem int) []rtree.Box {
 }
 
 func c11Main(r *engine.Run) {
-	r.Rule = "trees = every multiset of ≤k lattice boxes (corners in {0..3}², incl. points/lines) and 14 layout families at every size 0..40 plus fan-out boundary sizes; queries = lattice boxes over the extent, enclosing, far, each item's own box and edge/corner-touching boxes; callback scripts = continue^j·X for every j (sampled positions for visit lists > 12 on big trees) and X ∈ {Stop, wrapped Stop, error, wrapped error}. states = trees, transitions = searches. non-trivial = (tree, query, op) with ≥ 2 visits (so a stop precedes the last match)"
+	r.Rule = "trees = every multiset of ≤k lattice boxes (corners in {0..3}², incl. points/lines) and 16 layout families at every size 0..40 plus fan-out boundary sizes; queries = lattice boxes over the extent, enclosing, far, each item's own box and edge/corner-touching boxes; callback scripts = continue^j·X for every j (sampled positions for visit lists > 12 on big trees) and X ∈ {Stop, wrapped Stop, error, wrapped error}. states = trees, transitions = searches. non-trivial = (tree, query, op) with ≥ 2 visits (so a stop precedes the last match)"
 	lat := c11LatticeBoxes(4)
 	// (i) all multisets of ≤ k lattice boxes; queries = all lattice boxes
 	k := 2
@@ -509,14 +541,14 @@ func c11Main(r *engine.Run) {
 		}
 		qs := c11Queries(boxes, per)
 		if j.n > 300 {
-			qs = append(qs[:3:3], qs[3+17], qs[3+55], qs[3+99], qs[len(qs)-5], qs[len(qs)-4], qs[len(qs)-3])
+			qs = append(qs[:4:4], qs[4+17], qs[4+55], qs[4+99], qs[len(qs)-5], qs[len(qs)-4], qs[len(qs)-3])
 		}
 		for _, q := range qs {
 			c11Query(r, t, q, j.n <= 40)
 		}
 	})
 	if done {
-		r.Bound(fmt.Sprintf("14 layout families × every size 0..40 and sizes %v", big))
+		r.Bound(fmt.Sprintf("16 layout families × every size 0..40 and sizes %v", big))
 	}
 	r.Sample("search", c11Case{Family: "staircase-overlap", N: 17, Query: rtree.Box{MinX: 0, MinY: 0, MaxX: 4, MaxY: 4}, Op: "priority", StopAt: 3, Kind: 0})
 }
